@@ -472,31 +472,21 @@ func RunMaster(c Check, tier string, seed uint64, workers int, b Budget, extraEn
 	if cc, ok := c.(CrashChecker); ok {
 		// a worker that died or hung: re-run the journalled run alone in a fresh
 		// child process; if that dies or hangs too it is a violation, not trouble.
+		var cmu sync.Mutex
+		var cwg sync.WaitGroup
 		for w := range errs {
 			dead := errs[w] != "" || (sums[w] != nil && strings.Contains(sums[w].Fatal, "did not return within"))
 			if !dead {
 				continue
 			}
-			journal := filepath.Join(scratchDir(), fmt.Sprintf("journal.%s.%d", c.ID(), w))
-			idx, rs, jt, ok := readJournal(journal)
-			if !ok {
-				continue
-			}
-			class, detail := ConfirmCrash(exe, c.ID(), rs, jt, tier, cc.RunTimeout(), extraEnv)
-			if class == "" {
-				continue // not reproduced: stays harness trouble
-			}
-			rf := &ReplayFile{Property: cc.CrashIsViolation(), Tier: tier, Seed: seed, RunIndex: idx, RunSeed: rs, SeedOnly: true, Tape: jt,
-				Violation: Violation{Property: cc.CrashIsViolation(), Class: class, Detail: detail}}
-			path, werr := WriteReplay(filepath.Join(VerifDir(), "replays"), rf)
-			if werr == nil {
-				crashReports = append(crashReports, Reported{Violation: rf.Violation, Replay: path, RunIndex: idx})
-				errs[w] = ""
-				if sums[w] != nil {
-					sums[w].Fatal = ""
-				}
-			}
+			w := w
+			cwg.Add(1)
+			go func() {
+				defer cwg.Done()
+				confirmOne(c, cc, exe, tier, seed, w, extraEnv, &cmu, &crashReports, errs, sums)
+			}()
 		}
+		cwg.Wait()
 	}
 	for w, e := range errs {
 		if e != "" {
@@ -680,6 +670,31 @@ func RunMaster(c Check, tier string, seed uint64, workers int, b Budget, extraEn
 	}
 	fmt.Printf("OK property=%s held on everything explored\n", c.ID())
 	return 0
+}
+
+func confirmOne(c Check, cc CrashChecker, exe, tier string, seed uint64, w int, extraEnv []string, mu *sync.Mutex, crashReports *[]Reported, errs []string, sums []*WorkerSummary) {
+
+	journal := filepath.Join(scratchDir(), fmt.Sprintf("journal.%s.%d", c.ID(), w))
+	idx, rs, jt, ok := readJournal(journal)
+	if !ok {
+		return
+	}
+	class, detail := ConfirmCrash(exe, c.ID(), rs, jt, tier, cc.RunTimeout(), extraEnv)
+	if class == "" {
+		return // not reproduced: stays harness trouble
+	}
+	rf := &ReplayFile{Property: cc.CrashIsViolation(), Tier: tier, Seed: seed, RunIndex: idx, RunSeed: rs, SeedOnly: true, Tape: jt,
+		Violation: Violation{Property: cc.CrashIsViolation(), Class: class, Detail: detail}}
+	path, werr := WriteReplay(filepath.Join(VerifDir(), "replays"), rf)
+	if werr == nil {
+		mu.Lock()
+		*crashReports = append(*crashReports, Reported{Violation: rf.Violation, Replay: path, RunIndex: idx})
+		errs[w] = ""
+		if sums[w] != nil {
+			sums[w].Fatal = ""
+		}
+		mu.Unlock()
+	}
 }
 
 func oneLine(s string, max int) string {
